@@ -44,6 +44,9 @@ func c20Harness(cfg *Cfg) func(x *mc.Exec) {
 	}
 	ladders := map[string][]int{}
 	nsPer := []int{65536, 65537, 70000, 131072, 200001}
+	if cfg.Thorough {
+		nsPer = []int{65536, 65537, 65794, 65795, 70000, 98820, 131072, 131073, 200001, 400000}
+	}
 	return func(x *mc.Exec) {
 		mode := x.Choose(2, "mode")
 		var k WK
